@@ -2,6 +2,7 @@ package main
 
 import (
 	"fmt"
+	"go/token"
 	"go/types"
 	"sort"
 	"strings"
@@ -532,6 +533,7 @@ func (e *Enc) havocModifies(spec *FuncSpec, names map[string]Val, pre, post *Hea
 		post.m[n] = e.fresh(n, whole[n])
 		e.declare(n+"@0", whole[n])
 		post.mark(n, 0)
+		post.markBase(n, "*")
 		wholeNew = append(wholeNew, n)
 	}
 	for _, c := range cells {
@@ -558,6 +560,7 @@ func (e *Enc) havocModifies(spec *FuncSpec, names map[string]Val, pre, post *Hea
 				e.assume("true", fmt.Sprintf("(forall ((r Int)) (! (=> (<= r %s) (= (select %s r) (select %s r))) :pattern ((select %s r))))", pre.alloc, nw, old, nw))
 				post.m[ns[0]] = nw
 				post.mark(ns[0], e.serial)
+				post.markBase(ns[0], "*")
 				wholeNew = append(wholeNew, ns[0])
 			}
 		}
@@ -647,12 +650,20 @@ func (fr *Frame) appendOp(cc *ssa.CallCommon, in ssa.Instruction, st *BState, ar
 			e.assume("true", fmt.Sprintf("(forall ((i Int)) (! (=> (and (<= %s i) (< i %s)) (= (select %s i) (select (select %s %s) (- i %s)))) :pattern ((select %s i))))", s.Len, newLen, inner, H, t.Arr, s.Len, inner))
 		}
 		e.hset(h, n, srt, store(H, r, inner), r)
+		e.storeHint(h.m[n], H, r)
 	}
 	e.note("append always yields a fresh backing array (spare capacity is never shared)")
 	return Val{T: cc.Args[0].Type(), K: kSlice, Arr: r, Len: newLen}
 }
 
 func (fr *Frame) external(fn *ssa.Function, args []Val, in ssa.Instruction, st *BState) Val {
+	res := fr.external0(fn, args, in, st)
+	fr.ord["callx:"+fn.Name()]++
+	fr.siteAsserts(fmt.Sprintf("%s:%d", fn.Name(), fr.ord["callx:"+fn.Name()]), res, in, st)
+	return res
+}
+
+func (fr *Frame) external0(fn *ssa.Function, args []Val, in ssa.Instruction, st *BState) Val {
 	e := fr.e
 	name := fn.String()
 	rt := resultType(fn.Signature)
@@ -710,6 +721,8 @@ func (fr *Frame) external(fn *ssa.Function, args []Val, in ssa.Instruction, st *
 		v := havoc()
 		e.assume(sx(">", args[0].S, "0"), and(sx("<=", "0", v.S), sx("<", v.S, args[0].S)))
 		return v
+	case "sort.Slice":
+		return fr.sortSlice(args, in, st)
 	case "math/rand.Shuffle":
 		return fr.shuffle(args, in, st)
 	case "errors.New":
@@ -800,7 +813,7 @@ func (fr *Frame) shuffle(args []Val, in ssa.Instruction, st *BState) Val {
 }
 
 // permFacts: inner array `fin` is a permutation (on [0,n)) of `orig`, identical elsewhere.
-func (e *Enc) permFacts(orig, fin, n string) {
+func (e *Enc) permFacts(orig, fin, n string) string {
 	e.names["perm"]++
 	id := e.names["perm"]
 	pi := fmt.Sprintf("|perm.pi%d|", id)
@@ -809,5 +822,106 @@ func (e *Enc) permFacts(orig, fin, n string) {
 	e.assume("true", fmt.Sprintf("(forall ((k Int)) (! (=> (and (<= 0 k) (< k %s)) (and (<= 0 (%s k)) (< (%s k) %s) (= (select %s k) (select %s (%s k))) (= (%s (%s k)) k))) :pattern ((select %s k))))", n, pi, pi, n, fin, orig, pi, pinv, pi, fin))
 	e.assume("true", fmt.Sprintf("(forall ((m Int)) (! (=> (and (<= 0 m) (< m %s)) (and (<= 0 (%s m)) (< (%s m) %s) (= (%s (%s m)) m))) :pattern ((%s m))))", n, pinv, pinv, n, pi, pinv, pinv))
 	e.assume("true", fmt.Sprintf("(forall ((k Int)) (! (=> (or (< k 0) (>= k %s)) (= (select %s k) (select %s k))) :pattern ((select %s k))))", n, fin, orig, fin))
+	// every old element is found again (at position inv(m))
+	e.assume("true", fmt.Sprintf("(forall ((m Int)) (! (=> (and (<= 0 m) (< m %s)) (and (<= 0 (%s m)) (< (%s m) %s) (= (select %s (%s m)) (select %s m)))) :pattern ((select %s m))))", n, pinv, pinv, n, fin, pinv, orig, orig))
 	e.note("lemma (meta, trusted): a finite composition of transpositions is a permutation")
+	return pi
+}
+
+
+// matchLess recognises the closure shape  func(i, j int) bool { return s[i].F OP s[j].F }  (OP in <, >)
+// and returns the struct type, field index and whether the order is ascending.
+func matchLess(fn *ssa.Function) (types.Type, int, bool, bool) {
+	if len(fn.Blocks) != 1 || len(fn.Params) != 2 {
+		return nil, 0, false, false
+	}
+	var ret *ssa.Return
+	for _, in := range fn.Blocks[0].Instrs {
+		if r, ok := in.(*ssa.Return); ok {
+			ret = r
+		}
+	}
+	if ret == nil || len(ret.Results) != 1 {
+		return nil, 0, false, false
+	}
+	bo, ok := ret.Results[0].(*ssa.BinOp)
+	if !ok || (bo.Op != token.LSS && bo.Op != token.GTR) {
+		return nil, 0, false, false
+	}
+	side := func(v ssa.Value) (types.Type, int, *ssa.Parameter, bool) {
+		ld, ok := v.(*ssa.UnOp)
+		if !ok || ld.Op != token.MUL {
+			return nil, 0, nil, false
+		}
+		fa, ok := ld.X.(*ssa.FieldAddr)
+		if !ok {
+			return nil, 0, nil, false
+		}
+		ld2, ok := fa.X.(*ssa.UnOp)
+		if !ok || ld2.Op != token.MUL {
+			return nil, 0, nil, false
+		}
+		ia, ok := ld2.X.(*ssa.IndexAddr)
+		if !ok {
+			return nil, 0, nil, false
+		}
+		p, ok := ia.Index.(*ssa.Parameter)
+		if !ok {
+			return nil, 0, nil, false
+		}
+		nt, _ := namedStruct(fa.X.Type())
+		if nt == nil {
+			return nil, 0, nil, false
+		}
+		return nt, fa.Field, p, true
+	}
+	tx, fx, px, ok1 := side(bo.X)
+	ty, fy, py, ok2 := side(bo.Y)
+	if !ok1 || !ok2 || fx != fy || !types.Identical(tx, ty) || px != fn.Params[0] || py != fn.Params[1] {
+		return nil, 0, false, false
+	}
+	return tx, fx, bo.Op == token.LSS, true
+}
+
+// sort.Slice(s, less): assumed contract (A5) — the elements of s are permuted so that they are ordered by the
+// key read mechanically from the less closure; for len(s) <= 12 the sort is additionally stable (Go's pdqsort
+// falls back to insertion sort below 12 elements).
+func (fr *Frame) sortSlice(args []Val, in ssa.Instruction, st *BState) Val {
+	e := fr.e
+	if args[0].Box == nil || args[0].Box.K != kSlice || args[1].K != kClosure {
+		panic(unsupported("sort.Slice on a value that is not a directly boxed slice with a literal less function"))
+	}
+	s := *args[0].Box
+	nt, field, asc, ok := matchLess(args[1].Fn)
+	if !ok {
+		panic(unsupported("sort.Slice: less function is not of the form s[i].F < s[j].F"))
+	}
+	e.note("A5: sort.Slice permutes the slice into key order (stable for len <= 12)")
+	et := s.T.Underlying().(*types.Slice).Elem()
+	cs := flatten(et)
+	if len(cs) != 1 {
+		panic(unsupported("sort.Slice on a slice of composite values"))
+	}
+	h := st.heap
+	n := elemArr(et, nil, cs[0])
+	srt := arrSort('E', cs[0].Sort)
+	H := e.harr(h, n, srt)
+	orig := e.define(fr.vname2(in)+"#orig", "(Array Int Int)", sel(H, s.Arr))
+	fin := e.fresh(fr.vname2(in)+"#sorted", "(Array Int Int)")
+	e.hset(h, n, srt, store(H, s.Arr, fin), "")
+	pi := e.permFacts(orig, fin, s.Len)
+	st0 := nt.Underlying().(*types.Struct)
+	kc := flatten(st0.Field(field).Type())
+	if len(kc) != 1 || kc[0].Sort != "Int" {
+		panic(unsupported("sort.Slice: key field is not an integer"))
+	}
+	K := e.harr(h, fieldArr(nt, []int{field}, kc[0]), arrSort('F', kc[0].Sort))
+	op := "<="
+	if !asc {
+		op = ">="
+	}
+	e.assume("true", fmt.Sprintf("(forall ((i Int) (j Int)) (! (=> (and (<= 0 i) (< i j) (< j %s)) (%s (select %s (select %s i)) (select %s (select %s j)))) :pattern ((select %s i) (select %s j))))", s.Len, op, K, fin, K, fin, fin, fin))
+	// stability below 12 elements
+	e.assume("true", fmt.Sprintf("(=> (<= %s 12) (forall ((i Int) (j Int)) (! (=> (and (<= 0 i) (< i j) (< j %s) (= (select %s (select %s i)) (select %s (select %s j)))) (< (%s i) (%s j))) :pattern ((select %s i) (select %s j)))))", s.Len, s.Len, K, fin, K, fin, pi, pi, fin, fin))
+	return Val{K: kNone}
 }
